@@ -678,6 +678,8 @@ class SimNetwork:
         self.default_ips = None  # names not listed resolve to these (None: gaierror)
         self.resolver_calls = []
         self.connect_attempts = []  # (time, address, outcome_kind, open_others)
+        self.connect_addresses = []  # the socket addresses exactly as handed to connect()
+        self.resolved_addresses = []  # the socket addresses exactly as returned by the resolver
         self.sockets = []
         self.conns = []
         self.tls_wraps = []
@@ -712,9 +714,12 @@ class SimNetwork:
         out = []
         for ip in ips:
             if ":" in ip:
-                out.append((_socket.AF_INET6, _socket.SOCK_STREAM, 6, "", (ip, int(port), 0, 0)))
+                # link-local addresses carry the interface they belong to as scope id (here: 2 + the last hex digit), flowinfo 0
+                scope = (2 + int(ip[-1], 16)) if ip.lower().startswith("fe80:") and ip[-1] in "0123456789abcdefABCDEF" else 0
+                out.append((_socket.AF_INET6, _socket.SOCK_STREAM, 6, "", (ip, int(port), 0, scope)))
             else:
                 out.append((_socket.AF_INET, _socket.SOCK_STREAM, 6, "", (ip, int(port))))
+        self.resolved_addresses.extend(o[4] for o in out)
         return out
 
     def open_client_conns(self):
@@ -722,6 +727,7 @@ class SimNetwork:
 
     def connect(self, sock, address):
         key = (address[0], address[1])
+        self.connect_addresses.append(tuple(address))
         outcome = self.addrs.get(key, self.default_outcome)
         if callable(outcome):
             outcome = outcome(key)
